@@ -386,7 +386,25 @@ package stats
 // with 2U <= twoU; upmf(n1, n2, u) is the untied point mass at U = u.
 
 //@ spec acnt(t []int, n1 int, twoU int) float64
-//@ spec upmf(n1 int, n2 int, u int) float64
+// pmw: the Mann-Whitney recurrence (1947) with the symmetry p_{n,m} = p_{m,n}
+// folded in, as a function. upmf IS this function; that it equals the number
+// of subsets with statistic u divided by C(n1+n2,n1) is mathematics that no
+// solver checks here (DESIGN A5, M2/M3).
+//@ spec pmw(n int, m int, u int) float64 =
+//@     u < 0 ? 0 : (n > m ? pmw(m, n, u) : (n <= 0 ? (u == 0 ? 1 : 0) : (n * pmw(n-1, m, u-m) + m * pmw(n, m-1, u)) / (n + m)))
+//@ spec upmf(n1 int, n2 int, u int) float64 = pmw(n1, n2, u)
+
+// Above n*m the point mass is zero (the code leaves those entries alone).
+//@ lemma pmw_zero_s(n int, m int, u int, s int) induction s
+//@   model real
+//@   requires 0 <= n && 0 <= m && n + m <= s && u > n * m
+//@   ensures pmw(n, m, u) == 0
+//@ lemma pmw_zero(n int, m int, u int)
+//@   use pmw_zero_s
+//@   model real
+//@   requires 0 <= n && 0 <= m && u > n * m
+//@   ensures pmw(n, m, u) == 0
+//@   trigger pmw(n, m, u)
 //@ spec ucum(n1 int, n2 int, k int) float64 = k <= 0 ? 0 : ucum(n1, n2, k-1) + upmf(n1, n2, k-1)
 //@ spec tied(t []int) bool = exists k in 0..len(t) :: t[k] > 1
 
@@ -396,8 +414,8 @@ package stats
 //@   loop 1 (t) invariant forall j in 0.._k :: d.T[j] <= 1
 //@   assigns nothing
 
-// makeUmemo and UDist.p: assumed here (their bodies use maps keyed by structs
-// and an in-place two-dimensional dynamic programme; see DESIGN C02 P2/P3).
+// makeUmemo: assumed here (its body uses maps keyed by structs; see DESIGN
+// C02 P2/P3).
 //@ assume func makeUmemo
 //@   model real
 //@   trusted tie recurrence of Klotz / Cheung-Klotz (not verified: maps keyed by structs)
@@ -406,11 +424,29 @@ package stats
 //@   ensures len(A) == len(t) + 1 && haskey(A[len(t)], ukey{n1, twoU}) && A[len(t)][ukey{n1, twoU}] == acnt(t, n1, twoU)
 //@   assigns nothing
 
-//@ assume func UDist.p
+// UDist.p: the in-place two-dimensional dynamic programme is proved to
+// compute pmw. Row m of the table is being built from row m-1: entries
+// memo[n'] with n' < n already hold row m, entries from n on still hold row
+// m-1 (those on or above the diagonal, n' >= m, are still zero), and inside
+// the innermost loop the cells above U1 are new, the others old.
+//@ spec prow(memo [][]float64, lo int, hi int, m int, U int) bool =
+//@     forall n in lo..hi, u in 0..U+1 :: memo[n][u] == pmw(n, m, u)
+//@ spec pzero(memo [][]float64, lo int, hi int, U int) bool =
+//@     forall n in lo..hi, u in 0..U+1 :: memo[n][u] == 0
+//@ spec pshape(memo [][]float64, N int, U int) bool =
+//@     len(memo) == N + 1 && fresh(memo) && (forall n in 0..N+1 :: len(memo[n]) == U + 1 && fresh(memo[n])) &&
+//@     (forall n in 0..N+1, k in 0..N+1 :: n != k ==> region(memo[n]) != region(memo[k]))
+
+//@ func UDist.p
+//@   use pmw_zero
 //@   model real
-//@   trusted Mann-Whitney recurrence p_{n,m}(U) (not verified here)
-//@   requires U >= 0
-//@   ensures len(result) == U + 1 && fresh(result) && (forall u in 0..U+1 :: result[u] == upmf(d.N1, d.N2, u))
+//@   requires U >= 0 && d.N1 >= 0 && d.N2 >= 0
+//@   ensures [shape] len(result) == U + 1 && fresh(result)
+//@   ensures [def]   forall u in 0..U+1 :: result[u] == upmf(d.N1, d.N2, u)
+//@   loop 1 (n) invariant len(memo) == N + 1 && fresh(memo) && (forall k in 0..n :: len(memo[k]) == U + 1 && fresh(memo[k])) && (forall k in 0..n, j in 0..n :: k != j ==> region(memo[k]) != region(memo[j])) && pzero(memo, 0, n, U)
+//@   loop 2 (m) invariant 0 <= m && m <= M + 1 && pshape(memo, N, U) && prow(memo, 0, min(N, m-1) + 1, m-1, U) && pzero(memo, max(m, 1), N + 1, U) && (m == 0 ==> pzero(memo, 0, 1, U))
+//@   loop 3 (n) invariant 1 <= n && n <= nlim + 1 && pshape(memo, N, U) && prow(memo, 0, n, m, U) && prow(memo, n, min(N, m-1) + 1, m-1, U) && pzero(memo, max(m, n), N + 1, U)
+//@   loop 4 (U1) invariant -1 <= U1 && U1 <= ulim && pshape(memo, N, U) && prow(memo, 0, n, m, U) && prow(memo, n+1, min(N, m-1) + 1, m-1, U) && pzero(memo, max(m, n) + 1, N + 1, U) && (forall u in U1+1..ulim+1 :: out[u] == pmw(n, m, u)) && (forall u in 0..U1+1 :: out[u] == (n <= m-1 ? pmw(n, m-1, u) : 0)) && (forall u in ulim+1..U+1 :: out[u] == (n <= m-1 ? pmw(n, m-1, u) : 0))
 //@   assigns nothing
 
 // mathx.Choose as seen from stats: the guard clauses are proved in mathx;
